@@ -64,10 +64,17 @@ def main():
                 continue
             yield delayed(tagged_task)(i, tag, c.get("exc", "Boom") if c["kind"] == "task" and i in c["fail_at"] else False, 0.002 if i % 3 == 0 else 0)
 
+    import time
+
+    def note(ev, k):
+        with open(sys.argv[2] + ".progress", "a") as f:
+            f.write(json.dumps(dict(ev=ev, call=k, t=time.monotonic())) + "\n")
+
     def run():
         for k, c in enumerate(cfg["history"]):
             tag = f"c{k}"
             o = {}
+            note("start", k)
             try:
                 with warnings.catch_warnings():
                     warnings.simplefilter("ignore")
@@ -76,6 +83,7 @@ def main():
                 o["exc_type"] = type(e).__name__
                 o["exc_args"] = list(e.args) if type(e) in EXC.values() else [str(e)[:200]]
             calls.append(o)
+            note("end", k)
             if k == 1:
                 base["threads"], base["children"] = threading.active_count(), children()
 
